@@ -184,6 +184,19 @@ fn main() {
                 writeln!(out, "{}", oracle::obscmp(&a, &b)).unwrap();
             }
         }
+        // W TAB START END HEX -> class=ok|err|panic, rs, re, out, and the C13 oracle fields
+        "range" => {
+            for line in stdin.lock().lines() {
+                let line = line.unwrap();
+                let mut it = line.split_whitespace();
+                let w: usize = it.next().unwrap().parse().unwrap();
+                let t: usize = it.next().unwrap().parse().unwrap();
+                let a: usize = it.next().unwrap().parse().unwrap();
+                let b: usize = it.next().unwrap().parse().unwrap();
+                let src = unhex(it.next().unwrap());
+                writeln!(out, "{}", oracle::range(w, t, a, b, &src)).unwrap();
+            }
+        }
         // W -> chain_width
         "chainw" => {
             for line in stdin.lock().lines() {
